@@ -2,12 +2,19 @@ package processor
 
 import "github.com/alephium/wormhole-fork/node/pkg/zzverif"
 
+// C07: for every guardian-set size of the one-byte wire range the node's threshold is floor(2n/3)+1, equals what the
+// Solidity and the Ralph contracts compute (expressions extracted from the contract sources into verifSolQuorum /
+// verifRalQuorum on every run), exceeds 2n/3, never exceeds n, and two quorums overlap in more than n/3 guardians.
 func VerifC07_Quorum() {
 	n := int(zzverif.U8("n"))
 	q := CalculateQuorum(n)
 	zzverif.Assert(q == 2*n/3+1, "formula")
+	zzverif.Assert(uint64(q) == verifSolQuorum(uint64(n)), "equals-solidity")
+	zzverif.Assert(uint64(q) == verifRalQuorum(uint64(n)), "equals-ralph")
 	if n >= 1 {
-		zzverif.Assert(3*q > 2*n && q <= n, "bft")
+		zzverif.Assert(3*q > 2*n, "exceeds-two-thirds")
+		zzverif.Assert(q <= n, "at-most-n")
+		zzverif.Assert(3*(2*q-n) > n, "two-quorums-share-more-than-a-third")
 	}
 	zzverif.Reach("end")
 }
